@@ -1,3 +1,10 @@
 # spec-level macros shared by all contracts (contract language, see DESIGN 2.4)
 define("inbox(t, D, n)", "forall(k, 0, n, D[k, MIN] <= t[k] and t[k] <= D[k, MAX])")
 define("point(D, n)", "forall(k, 0, n, D[k, MIN] == D[k, MAX])")
+
+# ---- semantic layer (DESIGN 3.3): `sigma` is an arbitrary fixed ghost assignment of the shared domains; Rel(p, t) is the (uninterpreted)
+# relation of posted constraint p on a tuple t; V(p) is sigma seen through the variables of p (shared domain value + offset).
+define("tv(p)", "ufun_arr('V', var_bounds[p, RG_END] - var_bounds[p, RG_START], p)")
+define("rel_holds(p)", "ufun_bool('Rel', p, tv(p))")
+define("sol()", "forall(p, 0, P, rel_holds(p))")
+define("in_box(S, l)", "forall(d, 0, D, S[l, d, MIN] <= sigma[d] and sigma[d] <= S[l, d, MAX])")
